@@ -132,6 +132,29 @@ class SubRule:
         return self.target.guard(self.prefix + site, loc, config)
 
 
+class FilteredRule:
+    """forwards to `rule` only the instances whose site satisfies `pred` (used with ViewCheck to borrow a part of a rule)"""
+    def __init__(self, rule, pred):
+        self.rule, self.pred = rule, pred
+        self.rid = rule.rid
+        self.instances = rule.instances
+
+    def ok(self, site, *a):
+        if self.pred(site):
+            return self.rule.ok(site, *a)
+
+    def bad(self, site, *a):
+        if self.pred(site):
+            return self.rule.bad(site, *a)
+
+    def unknown(self, site, *a):
+        if self.pred(site):
+            return self.rule.unknown(site, *a)
+
+    def guard(self, site, loc, config):
+        return self.rule.guard(site, loc, config)
+
+
 class ViewCheck:
     """Runs the body of another property's check and keeps only selected rules, re-registered under rules of `chk`.
     mapping: source rule id -> Rule of chk.  Everything else the body produces is discarded."""
